@@ -21,6 +21,8 @@ from pathlib import Path
 
 import py2lean_k
 import py2lean_t
+import py2lean_r
+import py2lean_v
 
 GEN_FILES = ("PyOak/Gen/Kernels.lean", "PyOak/Props/GenBridge.lean")
 _state = {"target": None, "prev": None}
@@ -149,3 +151,48 @@ TREE_THEOREMS = ["PyOak.GenBridgeTree." + t for t in [
 def optional_tree(repo: Path, lean: Path) -> dict:
     """C06: `class Tree` (src/pyoak/tree.py) -- `__init__` and every undecorated method"""
     return _optional(repo, lean, "KernelsTree.lean", py2lean_t.generate_tree, TREE_MODULE, TREE_THEOREMS, "class Tree (pyoak/tree.py)")
+
+
+TRAVERSE_MODULE = "PyOak.Props.GenBridgeTraverse"
+TRAVERSE_THEOREMS = ["PyOak.GenBridgeTraverse." + t for t in [
+    "ofInfo_toInfo", "dfs_loop_2_drain", "dfs_loop_eq", "bfs_loop_eq",
+    # generated = model, for Optional callbacks on NodeTraversalInfo (None included), fuel n.size on both sides
+    "dfs_gen_eq", "bfs_gen_eq", "gather_gen_eq",
+    # the same read from the model's side: arbitrary predicates on Item
+    "dfsImpl_eq_gen", "bfsImpl_eq_gen", "gatherImpl_eq_gen", "dfs_defaults_eq_gen"]]
+
+
+def optional_traverse(repo: Path, lean: Path) -> dict:
+    """C05: `ASTNode.dfs`, `ASTNode.bfs`, `ASTNode.gather` (src/pyoak/node.py)"""
+    return _optional(repo, lean, "KernelsTraverse.lean", py2lean_v.generate_traverse, TRAVERSE_MODULE, TRAVERSE_THEOREMS,
+                     "ASTNode.dfs / bfs / gather (pyoak/node.py)")
+
+
+REGISTRY_MODULE = "PyOak.Props.GenBridgeRegistry"
+REGISTRY_THEOREMS = ["PyOak.GenBridgeRegistry." + t for t in [
+    # the dict primitives of the model are the primitives of the prelude
+    "regGet_eq_gen", "regDel_eq_gen", "regSet_eq_gen", "suffixed_eq_gen",
+    # `_get_next_unique_id`: the loop, the fuel `reg.length + 2` (and every larger one), no OutOfFuel
+    "nextUniqueFrom_eq_gen", "loop_fuel_mono", "freshId_eq_gen", "freshId_eq_gen_of_le", "nextUnique_no_outOfFuel",
+    # lookups
+    "getAny_eq_gen", "getAny_eq_gen_none", "get_eq_gen", "get_eq_gen_none",
+    # detach_self / detach, on every state, and read off `RState.step`
+    "detachSelf_eq_gen", "detach_eq_gen", "step_detach_eq_gen", "step_detachSelf_eq_gen"]]
+
+
+def optional_registry(repo: Path, lean: Path) -> dict:
+    """C03: `_get_next_unique_id`, `ASTNode.get_any`, `ASTNode.get`, `ASTNode.detach_self`, `ASTNode.detach` (src/pyoak/node.py)"""
+    return _optional(repo, lean, "KernelsRegistry.lean", py2lean_r.generate_registry, REGISTRY_MODULE, REGISTRY_THEOREMS,
+                     "registry functions of node.py (_get_next_unique_id / get_any / get / detach_self / detach)")
+
+
+LEGACY_XPATH_MODULE = "PyOak.Props.GenBridgeLegacyXPath"
+LEGACY_XPATH_THEOREMS = ["PyOak.GenBridgeLX." + t for t in [
+    "elem_test", "anyAnc_any", "lmatchH_eq_gen", "lxmatchH_eq_gen", "lmatchElemH_eq_gen", "legacy_gen_eq_sat",
+    "legacy_gen_eq_sat_detached", "legacy_gen_run", "lmatch_eq_gen_chain"]]
+
+
+def optional_legacy_xpath(repo: Path, lean: Path) -> dict:
+    """C20: `_match_node_xpath` of src/pyoak/legacy/match/xpath.py (idiom table: py2lean_k.LEGACY_IDIOMS)"""
+    return _optional(repo, lean, "KernelsLegacyXPath.lean", py2lean_k.generate_legacy_xpath, LEGACY_XPATH_MODULE,
+                     LEGACY_XPATH_THEOREMS, "legacy _match_node_xpath")
